@@ -1,10 +1,14 @@
 /-
 C11 — Variation stores, metric deltas and axis normalisation compute specified values.
-Property theorems only (helpers: Lemmas/TentLemmas.lean, Lemmas/IvsLemmas.lean, Lemmas/Round.lean).
-Models: Model/Tent.lean     ⇄ read-fonts/src/tables/variations.rs (compute_scalar, compute_delta, delta_set)
-        Model/Normalize.lean ⇄ read-fonts/src/tables/{fvar,avar}.rs
-        Model/Ivs.lean      ⇄ write-fonts/src/tables/variations/ivs_builder.rs
-        Model/Metrics.lean  ⇄ skrifa/src/metrics.rs
+Property theorems only; continued in Props/C11Scalar.lean (multi-axis product / monotonicity, uses Mathlib).
+Helpers: Lemmas/{TentLemmas,Round,NormalizeLemmas,DeltaLemmas,IvsLemmas,BuiltDelta,MetricsLemmas,DsimLemmas}.lean
+Models: Model/Tent.lean      ⇄ read-fonts/src/tables/variations.rs (compute_scalar, compute_delta, delta_set,
+                               DeltaSetIndexMap::get, advance_delta)
+        Model/Normalize.lean ⇄ read-fonts/src/tables/{fvar,avar}.rs (normalize, SegmentMaps::apply, user_to_normalized)
+        Model/Ivs.lean       ⇄ write-fonts/src/tables/variations/ivs_builder.rs (+ variations.rs DeltaSetIndexMap writer)
+        Model/Metrics.lean   ⇄ skrifa/src/metrics.rs
+Sections: 1 tent scalar · 2 axis normalisation · 3 avar segment maps · 4 compute_delta · 5 store builder retrieval ·
+          6 metric lookup / DeltaSetIndexMap · 7 builder ∘ reader (delta on a built store)
 -/
 import FontVerif.Model.Tent
 import FontVerif.Model.Normalize
